@@ -1,5 +1,5 @@
 //@unit C03_cleancollinear
-//@props C03
+//@props C03 C02
 //@safetyprops C10 C14
 //@desc ClipperBase::CleanCollinear — BOUNDED (OutPt ring of exactly N nodes, N = 4; 5 in the thorough tier; start node and PreserveCollinear symbolic). Geometry is abstracted to ARBITRARY relations over vertex identities (which triples are collinear, which pairs coincide, which triples fold back), so the result covers every coordinate assignment; DisposeOutPt, IsValidClosedPath and GetRealOutRec are the real bodies (IsVerySmallTriangle answers arbitrarily), FixSelfIntersects/DisposeOutPts are stubs. When the path survives: the ring is consistent and holds live nodes only, every vertex was either kept or disposed exactly once, at least three remain, and NO REMOVABLE VERTEX IS LEFT - no vertex equal to a neighbour, no 180-degree spike, and with PreserveCollinear off no collinear vertex (what BuildPath64's unit assumes of its input); a path that vanishes is disposed as a whole.
 #include "vf.h"
